@@ -95,21 +95,87 @@ CONSTRAINTS = {
 }
 
 
+FORMS = ["scalar", "list", "short_list", "gap_list", "dict", "dict_all"]
+
+
+@st.composite
+def constraint_spec(draw, n, with_second=True):
+    """one (or two, on disjoint modes) constraint keywords for an n-mode problem, in every container form the API
+    accepts: scalar, full-length list, list *shorter* than the number of modes, list with None / False entries,
+    dict on a subset of the modes, dict on all modes.  The containers are built fresh by constraint_kwargs()."""
+    name = draw(st.sampled_from(sorted(CONSTRAINTS)))
+    form = draw(st.sampled_from(FORMS))
+    spec = {"constraint": name, "param": draw(CONSTRAINTS[name]), "form": form}
+    used = set(range(n))
+    if form == "short_list":
+        spec["len"] = draw(st.integers(1, max(1, n - 1)))
+        used = set(range(spec["len"]))
+    elif form == "gap_list":
+        spec["len"] = draw(st.integers(1, n))
+        spec["gaps"] = [draw(st.sampled_from(["p", "p", "none", "false"])) for _ in range(spec["len"])]
+        used = {i for i, g in enumerate(spec["gaps"]) if g == "p"}
+    elif form == "dict":
+        spec["cmodes"] = sorted(draw(st.lists(st.integers(0, n - 1), unique=True, min_size=1, max_size=n)))
+        used = set(spec["cmodes"])
+    free = sorted(set(range(n)) - used)
+    if with_second and free and form != "scalar" and draw(st.booleans()):
+        name2 = draw(st.sampled_from([c for c in sorted(CONSTRAINTS) if c != name]))
+        form2 = draw(st.sampled_from(["dict", "gap_list"]))
+        sec = {"constraint": name2, "param": draw(CONSTRAINTS[name2]), "form": form2}
+        modes2 = sorted(draw(st.lists(st.sampled_from(free), unique=True, min_size=1, max_size=len(free))))
+        if form2 == "dict":
+            sec["cmodes"] = modes2
+        else:
+            sec["len"] = draw(st.integers(max(modes2) + 1, n))
+            sec["gaps"] = ["p" if i in modes2 else draw(st.sampled_from(["none", "false"])) for i in range(sec["len"])]
+        spec["second"] = sec
+    return spec
+
+
+def _one_constraint(spec, n):
+    form, p = spec.get("form", "scalar"), spec["param"]
+    if form == "list":
+        return [p] * n
+    if form == "short_list":
+        return [p] * spec["len"]
+    if form == "gap_list":
+        return [p if g == "p" else (None if g == "none" else False) for g in spec["gaps"]]
+    if form == "partial_list":
+        return [p if m in spec["cmodes"] else None for m in range(n)]
+    if form == "dict":
+        return {m: p for m in spec["cmodes"]}
+    if form == "dict_all":
+        return {m: p for m in range(n)}
+    return p
+
+
+def constraint_kwargs(spec, n):
+    """fresh caller-owned containers for the constraint keyword(s) of a spec"""
+    if not spec.get("constraint"):
+        return {}
+    kw = {spec["constraint"]: _one_constraint(spec, n)}
+    if spec.get("second"):
+        kw[spec["second"]["constraint"]] = _one_constraint(spec["second"], n)
+    return kw
+
+
 @st.composite
 def s_admm(draw):
     n, r = draw(st.integers(2, 5)), draw(st.integers(1, 3))
-    name = draw(st.sampled_from([None] + sorted(CONSTRAINTS)))
-    return {"U": draw(enc([n + 1, r], "uniform")), "UtM": draw(enc([n, r], "nonneg")), "x": draw(enc([n, r], "uniform")),
-            "dual": draw(enc([n, r], "normal", scale=0.1)), "constraint": name,
-            "param": draw(CONSTRAINTS[name]) if name else None, "n_iter_max": draw(st.integers(1, 5))}
+    c = {"U": draw(enc([n + 1, r], "uniform")), "UtM": draw(enc([n, r], "nonneg")), "x": draw(enc([n, r], "uniform")),
+         "dual": draw(enc([n, r], "normal", scale=0.1)), "constraint": None, "param": None, "n_iter_max": draw(st.integers(1, 5))}
+    if draw(st.integers(0, 9)) > 0:
+        c["n_const"] = draw(st.integers(1, 3))
+        c["order"] = draw(st.integers(0, c["n_const"] - 1))
+        c.update(draw(constraint_spec(c["n_const"])))
+    return c
 
 
 def b_admm(e, ctx):
     U = gen.dec(e["U"])
     kw = dict(UtM=ctx.A(e["UtM"]), UtU=ctx.W(U.T @ U), x=ctx.A(e["x"]), dual_var=ctx.A(e["dual"]), n_iter_max=e["n_iter_max"],
-              n_const=1 if e["constraint"] else None, order=0 if e["constraint"] else None)
-    if e["constraint"]:
-        kw[e["constraint"]] = e["param"]
+              n_const=e.get("n_const", 1) if e["constraint"] else None, order=e.get("order", 0) if e["constraint"] else None)
+    kw.update(constraint_kwargs(e, e.get("n_const", 1)))
     return Call(admm, kw)
 
 
@@ -167,13 +233,12 @@ register("soft_thresholding.array_threshold", s_soft_thr_arr(),
 
 @st.composite
 def s_proxop(draw):
-    name = draw(st.sampled_from(sorted(CONSTRAINTS)))
     n_const = draw(st.integers(1, 3))
     order = draw(st.integers(0, n_const - 1))
-    form = draw(st.sampled_from(["scalar", "list", "dict"]))
-    p = draw(CONSTRAINTS[name])
-    return {"T": draw(enc([draw(st.integers(2, 5)), draw(st.integers(1, 3))], draw(st.sampled_from(["normal", "sparse", "allneg"])))),
-            "constraint": name, "param": p, "form": form, "n_const": n_const, "order": order}
+    c = {"T": draw(enc([draw(st.integers(2, 5)), draw(st.integers(1, 3))], draw(st.sampled_from(["normal", "sparse", "allneg"])))),
+         "n_const": n_const, "order": order}
+    c.update(draw(constraint_spec(n_const)))
+    return c
 
 
 def constraint_arg(form, p, n_const, modes=None):
@@ -187,7 +252,9 @@ def constraint_arg(form, p, n_const, modes=None):
 
 def b_proxop(e, ctx):
     kw = dict(tensor=ctx.A(e["T"]), n_const=e["n_const"], order=e["order"])
-    kw[e["constraint"]] = constraint_arg(e["form"], e["param"], e["n_const"])
+    if e.get("form") == "dict" and "cmodes" not in e:          # first-generation cases / replays: dict on every mode
+        e = dict(e, form="dict_all")
+    kw.update(constraint_kwargs(e, e["n_const"]))
     return Call(P.proximal_operator, kw)
 
 
